@@ -324,6 +324,13 @@ theorem k_polyMultiplyByMonomial_eq (F : GF.GF) (hF : TablesOK F) (p : List Nat)
       | error e => cases e <;> rfl
 
 
+when_kernel Gzx.Gen.K04b.polyMultiplyByMonomial in
+/-- the same with degree and coefficient as integer expressions -/
+theorem k_polyMultiplyByMonomial_at (F : GF.GF) (hF : TablesOK F) (p : List Nat) (e1 e2 : Int) (deg coeff : Nat)
+    (h1 : e1 = deg) (h2 : e2 = coeff) :
+    Gen.K04b.polyMultiplyByMonomial (fieldRec F) (ints p) e1 e2 = expE [] ints (multiplyByMonomial F p deg coeff) := by
+  subst h1 h2; exact k_polyMultiplyByMonomial_eq F hF p deg coeff
+
 when_kernel Gzx.Gen.K04b.polyMultiplyBy in
 /-- `MultiplyBy(scalar)` = the model's `multiplyBy` -/
 theorem k_polyMultiplyBy_eq (F : GF.GF) (hF : TablesOK F) (p : List Nat) (hp : p ≠ []) (scalar : Nat) :
